@@ -36,6 +36,15 @@ class Res(object):
         if self.rid % 3 == 0:
             raise IOError("resource %d could not be released cleanly" % self.rid)     # one resource failing must not keep the others from being closed
 
+    # what a resource looks like is the application's business: every fourth one is a (still empty) collection, every fifth says it is false
+    def __len__(self):
+        if self.rid % 4 == 1:
+            return 0
+        raise TypeError("this resource has no length")
+
+    def __bool__(self):
+        return self.rid % 5 != 2 and self.rid % 4 != 1
+
 
 class World:
     def __init__(self):
